@@ -9,7 +9,7 @@
    Quantified over all populations (any number of components sharing a type), all holders,
    all field kinds (pointer, interface, any), required and optional. *)
 From Coq Require Import List Arith Bool.
-From IocVerif Require Import Model.Registry Model.Resolve Model.Factory Model.SingletonRegistry Proofs.ResolveProofs.
+From IocVerif Require Import Model.Registry Model.Resolve Model.Factory Model.SingletonRegistry Proofs.ResolveProofs Proofs.SingletonRegistryProofs.
 Import ListNotations.
 
 (* the named component and nothing else is proposed, however many others share its type *)
@@ -88,6 +88,20 @@ Proof. reflexivity. Qed.
 (* two distinct components can never be registered under one name *)
 Theorem c07_unique_names : forall rs, NoDup (map fst (fst (register_all [] rs))).
 Proof. intros rs. apply register_all_NoDup. constructor. Qed.
+
+(* the refusal is a Panicf of the library's logger, which panics only while the log level lets Panic messages through;
+   at the quietest level (app.LogLevel(syslog.LvFatal)) a second instance under a taken name is dropped silently and
+   registration goes on (Model/SingletonRegistry.v register_all_q).  Also then: never two components under one name,
+   the first registrant keeps its name, and without a clash the two levels do exactly the same *)
+Theorem c07_unique_names_quiet : forall rs, NoDup (map fst (fst (register_all_q [] rs))).
+Proof. intros rs. apply register_all_q_NoDup. constructor. Qed.
+
+Theorem c07_first_registrant_keeps_quiet : forall rs1 rs2 n i,
+  sfind n (fst (register_all_q [] rs1)) = Some i -> sfind n (fst (register_all_q (fst (register_all_q [] rs1)) rs2)) = Some i.
+Proof. intros rs1 rs2 n i H. apply register_all_q_keeps. exact H. Qed.
+
+Theorem c07_levels_agree_without_clash : forall rs, refused rs = false -> register_all_q [] rs = register_all [] rs.
+Proof. intros rs H. apply register_all_q_agrees. exact H. Qed.
 
 Theorem c07_second_instance_rejected : forall s r i,
   sfind (reg_name r) s = Some i -> i <> rq_inst r -> register s r = (s, RegPanic).
